@@ -526,3 +526,19 @@ def _format_output(ctx, parser_output, output_mode="sql", group_by_type=False):
     if fmt is None:
         raise AnalysisError("anchor vanished: Output.format")
     return it.call_func(fmt, [], {}, self_obj=out)
+
+
+def eval_method(ctx, cls_key, ctor_kwargs, preset, method, args=()):
+    """construct an instance of a package class abstractly, preset attributes, call one method; returns (result, instance attrs)"""
+    m = ctx.model
+    dc = ctx._get("dcmodel", lambda: DCModel(m))
+    it = ObjInterp(m, ctx.grammar.tokens_ns, dc)
+    if cls_key not in m.classes:
+        raise AnalysisError(f"anchor vanished: class {cls_key}")
+    inst = it.construct_inst(it.clsd(cls_key), [], dict(ctor_kwargs))
+    inst.attrs.update(preset)
+    f = it.lookup(inst.cls, method)
+    if f is None:
+        raise AnalysisError(f"anchor vanished: {cls_key[1]}.{method}")
+    res = it.call_func(f, list(args), {}, self_obj=inst)
+    return res, inst.attrs
